@@ -175,7 +175,7 @@ def run(ctx):
             n2 = cfg["n"] - (cfg["embedding"] - 1) * cfg["tau"]
             p2 = npca * cfg["embedding"]
         else:
-            n2, p2 = cfg["n"], cfg["p"]
+            n2, p2 = cfg["n"] - len(cfg.get("missing_rows") or []), cfg["p"]
         rank = max(1, min(n2, p2))
         cfg["k"] = int(rng.integers(1, rank + 1))
         rec = run_impl(cfg)
